@@ -17,7 +17,7 @@ RULE = (
     "linalg_to_kernel: linalg.generic bodies = type-correct DAGs of 1..6 ops from addi/muli/subi/extsi over 2..6 block "
     "arguments of widths i8/i16/i32/i64, any wiring, operand order and yielded value; ~55% carry the op-type sequence of a "
     "kernel's equivalent region (canonical wiring, canonical plus 1..3 rewirings, or random wiring), plus the complete set of "
-    "<=2-op bodies over 3 arguments at one width (thorough: 4 widths and all 3-op bodies at i8). Oracle: body before vs body "
+    "<=2-op bodies over 3 arguments at one width (thorough: 4 widths and all 3-op bodies at i8 yielding their last op). Oracle: body before vs body "
     "after `convert-linalg-to-kernel`, kernel ops evaluated through their own equivalent_region, on all corner inputs "
     "(min,-1,0,1,max per argument, all combinations) + 4 Hypothesis-drawn + 192 seed-derived vectors; equal outputs or the body is "
     "structurally unchanged. Non-trivial: the body has a kernel's op-type sequence and argument count. "
@@ -95,8 +95,14 @@ class _PassTimeout(BaseException):
 
 
 def _run_pipeline(om, mod):
-    """Apply the pipeline under a watchdog, so that a rewrite that never reaches a fixpoint is reported instead of hanging."""
+    """Apply the pipeline under a watchdog, so that a rewrite that never reaches a fixpoint is reported instead of hanging.
+    Once a pipeline hit the watchdog in this process, later applications are short-circuited (otherwise shrinking would take
+    hours); the first replay file holds the recipe that really hung."""
     import signal
+
+    key = id(om)
+    if _HUNG.get(key):
+        raise _PassTimeout()
 
     def on_alarm(signum, frame):
         raise _PassTimeout()
@@ -109,20 +115,18 @@ def _run_pipeline(om, mod):
     signal.setitimer(signal.ITIMER_REAL, WATCHDOG_S)
     try:
         om.pipeline.apply(om.ctx, mod)
+    except _PassTimeout:
+        _HUNG[key] = True
+        raise
     finally:
         signal.setitimer(signal.ITIMER_REAL, 0)
         signal.signal(signal.SIGALRM, old)
 
 
 def _apply(om, mod, tag):
-    if _HUNG.get(tag):
-        # the same pipeline already ran into the watchdog in this process: do not pay the watchdog again (shrinking would
-        # take hours); the first replay file holds the recipe that really hung
-        raise Violation(f"{tag}:pass-did-not-terminate", dict(watchdog_seconds=WATCHDOG_S, note="short-circuited after an earlier timeout"))
     try:
         _run_pipeline(om, mod)
     except _PassTimeout:
-        _HUNG[tag] = True
         raise Violation(f"{tag}:pass-did-not-terminate", dict(watchdog_seconds=WATCHDOG_S))
     except Exception as e:
         raise Violation(f"{tag}:raises:{type(e).__name__}", dict(error=repr(e)[:400]))
@@ -457,15 +461,15 @@ def prop_dispatch(r):
 
 SUBS = [
     Sub("linalg_to_kernel", lambda tier: G.l2k_recipe(tier), prop_l2k,
-        budget=dict(quick=6000, thorough=200000), exhaustive=G.l2k_exhaustive, floor=dict(quick=1500, thorough=40000),
+        budget=dict(quick=6000, thorough=150000), exhaustive=G.l2k_exhaustive, floor=dict(quick=1000, thorough=20000),
         nontrivial_rule="the body has the op-type sequence and argument count of a kernel's equivalent region (candidate for rewriting)"),
     Sub("kernel_roundtrip", lambda tier: G.k2l_recipe(tier), prop_k2l,
-        budget=dict(quick=1000, thorough=30000), exhaustive=G.k2l_exhaustive, floor=dict(quick=400, thorough=5000),
+        budget=dict(quick=1000, thorough=30000), exhaustive=G.k2l_exhaustive, floor=dict(quick=200, thorough=4000),
         nontrivial_rule="the kernel op has a well-typed definition, was expanded, and expansion/definition/reference were compared on inputs"),
     Sub("rescale", lambda tier: G.rescale_recipe(tier), prop_rescale,
-        budget=dict(quick=1200, thorough=40000), floor=dict(quick=200, thorough=4000),
+        budget=dict(quick=1200, thorough=40000), floor=dict(quick=180, thorough=5000),
         nontrivial_rule="kernel.rescale was expanded and the tested inputs reach at least two of {lower clamp, upper clamp, unclamped}"),
     Sub("dispatch", lambda tier: G.dispatch_recipe(tier), prop_dispatch,
-        budget=dict(quick=1500, thorough=30000), exhaustive=G.dispatch_exhaustive, floor=dict(quick=15, thorough=100),
+        budget=dict(quick=1500, thorough=30000), exhaustive=G.dispatch_exhaustive, floor=dict(quick=180, thorough=2000),
         nontrivial_rule="a declared accelerator lists the kernel class with exactly the operand+result types and the pass set library_call"),
 ]
